@@ -125,7 +125,7 @@ Lemma tramp_S : forall f p args env st, tramp (S f) p args env st =
                 doe (vs, st3) <- eval_args f aes last_env st2 ;;
                 match first with
                 | VProcU _ _ _ _ | VProcB _ => tramp f first vs env st3
-                | _ => (err TypeMisMatch, st3)
+                | _ => (lerr TypeMisMatch (eloc fe), st3)
                 end
             end
         | _ => (Panic PUnmodelled, st)
@@ -483,8 +483,8 @@ Proof.
               destruct (is_proc first) eqn:EF.
               ** assert (Hk' : tramp f first vs env st3 = (r, st')) by (destruct first; try discriminate EF; exact Hk).
                  eapply ev_call; [exact E1|exact E2|exact EF|]. eapply (s_tramp f IH); eassumption.
-              ** assert (Hk' : (err TypeMisMatch, st3) = (r, st')) by (destruct first; try discriminate EF; exact Hk).
-                 inv_pair Hk'. eapply ev_call_not_procedure; [exact E1|exact E2|discriminate|exact EF|now right].
+              ** assert (Hk' : (lerr TypeMisMatch (eloc fe), st3) = (r, st')) by (destruct first; try discriminate EF; exact Hk).
+                 inv_pair Hk'. eapply ev_call_not_procedure; [exact E1|exact E2|discriminate|exact EF|now left].
            ++ eapply ev_call_fail_operand; [exact E1| |exact Hf].
               apply (s_args f IH _ _ _ _ _ Hc). now apply failed_noF.
         -- apply ev_call_fail_operator; [|exact Hf]. apply (s_expr f IH _ _ _ _ _ Hb). now apply failed_noF.
